@@ -485,8 +485,8 @@ def deadline_histories():  # noqa: ANN201
 def start_sweep():  # noqa: ANN201
     for cfg in CFGS:
         for k in (0, 1, 2):
-            for first in ("started", "raise", "return", "forever"):
-                for after in ("more", "raise", "return", "forever"):
+            for first in ("started", "raise", "return", "forever", "shielded-twice"):
+                for after in ("more", "raise", "return", "forever", "again"):
                     if first != "started" and after != "more":
                         continue
 
@@ -498,7 +498,17 @@ def start_sweep():  # noqa: ANN201
                                     if first == "started":
                                         body.append(["started", None if k == 1 else 5])
                                         body += {"more": [["cp", 2]], "raise": [["cp", 1], ["raise", 2]],
-                                                 "return": [["return"]], "forever": [["forever"]]}[after]  # fmt: skip
+                                                 "return": [["return"]], "forever": [["forever"]],
+                                                 # started() again some cycles later (from the
+                                                 # cleanup path when cancelled meanwhile)
+                                                 "again": [["cleanup", [["cp", 4], ["started", 8]], 1,
+                                                            "reraise"], ["cp", 1]]}[after]  # fmt: skip
+                                    elif first == "shielded-twice":
+                                        # both started() calls may come after the caller has
+                                        # been cancelled (the child shields itself meanwhile)
+                                        body = [["scope", "c1", True, None, [
+                                            ["cp", k + 2], ["started", 5], ["cp", 1], ["started", 8],
+                                            ["cp", 1]]]]  # fmt: skip
                                     elif first == "raise":
                                         body.append(["raise", 1])
                                     elif first == "return":
